@@ -48,11 +48,13 @@ def desc_ok(d):
     return all(0x20 <= ord(c) <= 0x7e and c not in '"\\' for c in d)
 
 
-def observe(fn):
+def observe(fn, endpoint=False):
     """run an endpoint call; a response or the escaping exception"""
     try:
         r = fn()
     except OAuth2Error as e:            # resource protectors raise the protocol error to the framework layer, which renders it
+        if endpoint:                    # … the server's create_*_response methods answer themselves: an escaping protocol error is an unhandled exception in the view
+            return {"kind": "raised", "exc": type(e).__name__, "site": site_of(e), "msg": str(e)[:120]}
         return {"kind": "response", "status": e.status_code, "error": e.error, "description": e.description or "", "headers": {}, "body": {}}
     except Exception as e:
         from authlib.oauth1.rfc5849.errors import OAuth1Error
@@ -140,7 +142,7 @@ def call_oauth2(w, name, form, headers, via="form", method="POST"):
                 # the framework's own request machinery refused the value before the library saw it
                 return type("T", (), {"status": 400, "body": {"error": "invalid_request"}, "headers": {}})()
             raise
-    return observe(call)
+    return observe(call, endpoint=True)
 
 
 def world2j():
@@ -182,7 +184,7 @@ def call_jwt_endpoint(kind, token):
         form = {"grant_type": "client_credentials", "scope": "a", "client_assertion_type": ASSERTION_TYPE, "client_assertion": token}
     else:
         form = {"grant_type": ms.JWT_BEARER, "assertion": token, "scope": "a"}
-    return observe(lambda: w.srv.create_token_response(Req("POST", ms.TOKEN_URL, form, {})))
+    return observe(lambda: w.srv.create_token_response(Req("POST", ms.TOKEN_URL, form, {})), endpoint=True)
 
 
 def jwt_endpoint_tokens():
@@ -221,6 +223,11 @@ def jwt_endpoint_tokens():
     for over in ({"sub": DROP}, {"iss": DROP}, {"sub": 5}, {"iss": ["cj"]}, {"aud": DROP}, {"aud": 5}, {"aud": [5]}, {"exp": "x"}, {"exp": DROP}, {"exp": True}, {"jti": DROP}, {"jti": 5},
                  {"jti": {"a": 1}}, {"sub": "ghost", "iss": "ghost"}, {"sub": "c1", "iss": "c1"}, {"iat": "x"}, {"nbf": "x"}, {"sub": "é", "iss": "é"}, {"sub": "\"", "iss": "\""}):
         out.append(("client_assertion", client_assertion(**over)))
+    # correctly signed RFC 9068 access tokens in which one claim is retyped (wrong JSON types, nested containers, SCIM-style objects)
+    _, header, payload, key = c10.craft([], want_parts=True)
+    for claim in ("scope", "groups", "roles", "entitlements", "aud", "amr", "auth_time", "client_id", "sub", "jti", "iss", "exp", "iat", "acr"):
+        for val in ([{}], [{"display": "x"}], [{"value": "a"}, {"$ref": "b"}], {"a": 1}, [[1]], [None], 5, True, None, "", [], ["a", 5], [["a"]], 1.5, "\"", ["é"]):
+            out.append(("rfc9068", JsonWebSignature().serialize_compact(header, _json.dumps(dict(payload, **{claim: val})).encode(), key).decode()))
     return out
 
 
@@ -507,6 +514,18 @@ def jose_call(api, arg, kty=None, form=None, case=None):
                 JsonWebSignature().deserialize_compact(arg, k)
         elif api == "alg_family_jwe":
             JsonWebEncryption().deserialize_compact(arg, family_key(kty, form))
+        elif api == "nokey":
+            # the token names a key the application does not have: its resolver answers None (or the application passes None)
+            how, what = form
+            k = None if how == "none" else (lambda h, p: None)
+            if what == "jws":
+                JsonWebSignature().deserialize_compact(arg, k)
+            elif what == "jws_json":
+                JsonWebSignature().deserialize_json(arg, k)
+            elif what == "jwt":
+                JsonWebToken(["HS256", "RS256", "ES256"]).decode(arg, k)
+            else:
+                JsonWebEncryption().deserialize_compact(arg, k)
         elif api == "jws_compact":
             JsonWebSignature().deserialize_compact(arg, key)
         elif api == "jws_json":
@@ -641,6 +660,25 @@ def cases(rng, tier):
                 out.append({"t": "oauth1", "ep": ep, "header": None, "query": "", "body": base, "mut": "authority", "authority": au})
     for kind, tok in jwt_endpoint_tokens():
         out.append({"t": "jwt_endpoint", "ep": kind, "token": tok})
+    # unknown key ids: the application's key resolver has no key for the kid the token names (answers None), or the application passes None
+    from authlib.jose import JsonWebSignature as _J, JsonWebEncryption as _E, JsonWebKey as _K
+    for alg, kty in (("HS256", "oct"), ("RS256", "RSA"), ("ES256", "EC")):
+        fk = family_key(kty, "obj")
+        for with_jwk in (False, True):
+            hdr = {"alg": alg, "kid": "no-such-kid"}
+            if with_jwk and kty != "oct":
+                hdr["jwk"] = dict(fk.as_dict())
+            t = _J().serialize_compact(hdr, b'{"iss":"i"}', fk).decode()
+            for how in ("resolver", "none"):
+                if how == "none" and with_jwk:
+                    continue          # (a token's own jwk header is the documented fallback when the application passes no key at all)
+                for what in ("jws", "jwt"):
+                    out.append({"t": "jose", "api": "nokey", "form": [how, what], "arg": t})
+                out.append({"t": "jose", "api": "nokey", "form": [how, "jws_json"], "arg": _J().serialize_json({"protected": hdr}, b"payload", fk)})
+    for alg, kty in (("dir", "oct"), ("A256KW", "oct"), ("RSA-OAEP", "RSA"), ("ECDH-ES", "EC")):
+        t = _E().serialize_compact({"alg": alg, "enc": "A256GCM" if alg != "dir" else "A128CBC-HS256", "kid": "no-such-kid"}, b"x", family_key(kty, "obj")).decode()
+        for how in ("resolver", "none"):
+            out.append({"t": "jose", "api": "nokey", "form": [how, "jwe"], "arg": t})
     # JOSE
     tok = valid_jws()
     segs = tok.split(".")
@@ -732,7 +770,7 @@ def impl(c):
         return call_flask1(c["ep"], c["method"], c["query"], c["form"], c["auth"])
     if t == "oidc_authorize":
         store, srv = world_oidc()
-        return observe(lambda: srv.create_authorization_response(Req("POST", "https://as.example/authorize", dict(c["form"]), {}), grant_user=store.users[1]))
+        return observe(lambda: srv.create_authorization_response(Req("POST", "https://as.example/authorize", dict(c["form"]), {}), grant_user=store.users[1]), endpoint=True)
     if t == "register":
         sm = {"scopes_supported": ["a", "b"], "grant_types_supported": ["authorization_code"], "response_types_supported": ["code"],
               "token_endpoint_auth_methods_supported": ["none", "client_secret_basic"]}
@@ -862,6 +900,8 @@ def jose_documented(c, out):
     """exceptions outside JoseError that the library documents / its own tests pin for JOSE calls"""
     if out["exc"] == "ValueError" and out["site"] in ("jose/rfc7517/key_set.py:find_by_kid", "jose/rfc7519/jwt.py:load_key"):
         return True          # "no such key in the set": documented (:raise: ValueError) and relied upon by the client integrations to refetch the JWKS
+    if c["api"] == "nokey" and out["exc"] == "ValueError" and out["site"].startswith(("jose/rfc7517/", "jose/rfc7518/", "jose/rfc8037/")):
+        return True          # no key: ValueError from the key import, the same family as an unusable key
     if c["api"] == "alg_family" and out["exc"] == "ValueError" and out["site"].startswith(("jose/rfc7517/", "jose/rfc7518/", "jose/rfc8037/")):
         return True          # the verification key cannot be used with the algorithm the header names: ValueError from the key import, as tests/jose/test_jws.py pins
     if c["api"] == "hdr_fuzz":
